@@ -262,4 +262,96 @@ theorem lastWrite_eq_getKey {m : List (Pos × Int)} (h : Sorted m) (p : Pos) : l
     · simp only [hp, if_false]
       cases getKey p r <;> rfl
 
+/-! ## `apply_delta` reads its output only through `look` -/
+
+theorem filter_congr' {α : Type} {p q : α → Bool} {l : List α} (h : ∀ x ∈ l, p x = q x) : l.filter p = l.filter q :=
+  List.filter_congr h
+
+/-- E1: on two values a consumer cannot tell apart, `applyCore` reports the same delta and yields values a consumer
+    cannot tell apart -/
+theorem applyCore_congr (k : Kind) {x y : Val} (h : LEq k x.items y.items) (d : Delta) :
+    (applyCore k x d).2 = (applyCore k y d).2 ∧ LEq k (applyCore k x d).1.items (applyCore k y d).1.items := by
+  have hk : ∀ p, hasKey p x.items = hasKey p y.items := h.hasKey
+  have he : LEq k (d.rems.foldl (fun m p => eraseKey p m) x.items) (d.rems.foldl (fun m p => eraseKey p m) y.items) :=
+    LEq.foldl_erase d.rems h
+  cases k
+  · exact ⟨rfl, LEq.foldl_set (fun e => e.2) d.mods h⟩
+  · simp only [applyCore]
+    have hf : d.mods.filter (fun e => !hasKey e.1 (d.rems.foldl (fun m p => eraseKey p m) x.items)) =
+        d.mods.filter (fun e => !hasKey e.1 (d.rems.foldl (fun m p => eraseKey p m) y.items)) :=
+      List.filter_congr (fun e _ => by rw [he.hasKey])
+    have hr : d.rems.filter (fun p => hasKey p x.items) = d.rems.filter (fun p => hasKey p y.items) :=
+      List.filter_congr (fun p _ => hk p)
+    rw [hf, hr]
+    exact ⟨rfl, LEq.foldl_set (fun _ => 0) _ he⟩
+  · simp only [applyCore]
+    have hr : d.rems.filter (fun p => hasKey p x.items) = d.rems.filter (fun p => hasKey p y.items) :=
+      List.filter_congr (fun p _ => hk p)
+    rw [hr]
+    exact ⟨rfl, LEq.foldl_set (fun e => e.2) d.mods he⟩
+
+theorem applyCore_valid (k : Kind) (v : Val) (d : Delta) : (applyCore k v d).1.valid = true := by
+  cases k <;> rfl
+
+/-- removing the removals that took effect leaves the same readable contents as removing all of them -/
+theorem leq_erase_effective (k : Kind) (rs : List Pos) (m : List (Pos × Int)) :
+    LEq k ((rs.filter (fun p => hasKey p m)).foldl (fun m p => eraseKey p m) m) (rs.foldl (fun m p => eraseKey p m) m) := by
+  intro p
+  rw [look_foldl_erase, look_foldl_erase]
+  by_cases h1 : p ∈ rs
+  · by_cases h2 : hasKey p m = true
+    · have : p ∈ rs.filter (fun p => hasKey p m) := List.mem_filter.mpr ⟨h1, h2⟩
+      simp [h1, this]
+    · have hn : p ∉ rs.filter (fun p => hasKey p m) := fun hh => h2 (List.mem_filter.mp hh).2
+      have hl : look k m p = none := by
+        have hg : getKey p m = none := by
+          cases hg : getKey p m with
+          | none => rfl
+          | some x => exact absurd (by rw [hasKey_eq, hg]; rfl) h2
+        cases k
+        · exact hg
+        · simp only [look]; simp [h2]
+        · exact hg
+      simp [h1, hn, hl]
+  · have hn : p ∉ rs.filter (fun p => hasKey p m) := fun hh => h1 (List.mem_filter.mp hh).1
+    simp [h1, hn]
+
+/-- E2: replaying the delta an output reported onto the value it had reproduces the report and the output -/
+theorem applyCore_replay (k : Kind) (v : Val) (ops : Delta) :
+    (applyCore k v (applyCore k v ops).2).2 = (applyCore k v ops).2 ∧
+    LEq k (applyCore k v (applyCore k v ops).2).1.items (applyCore k v ops).1.items := by
+  cases k
+  · exact ⟨rfl, LEq.refl _ _⟩
+  · -- set
+    have he := leq_erase_effective .set ops.rems v.items
+    simp only [applyCore]
+    have hrem : (ops.rems.filter (fun p => hasKey p v.items)).filter (fun p => hasKey p v.items) =
+        ops.rems.filter (fun p => hasKey p v.items) := by
+      rw [List.filter_filter]; exact List.filter_congr (fun p _ => by simp)
+    rw [hrem]
+    have hadd : ((ops.mods.filter (fun e => !hasKey e.1 (ops.rems.foldl (fun m p => eraseKey p m) v.items))).map
+          (fun e => (e.1, (0 : Int)))).filter
+          (fun e => !hasKey e.1 ((ops.rems.filter (fun p => hasKey p v.items)).foldl (fun m p => eraseKey p m) v.items)) =
+        (ops.mods.filter (fun e => !hasKey e.1 (ops.rems.foldl (fun m p => eraseKey p m) v.items))).map
+          (fun e => (e.1, (0 : Int))) := by
+      apply List.filter_eq_self.mpr
+      intro e he'
+      obtain ⟨e0, he0, rfl⟩ := List.mem_map.mp he'
+      have := (List.mem_filter.mp he0).2
+      rw [he.hasKey]; exact this
+    rw [hadd]
+    refine ⟨by simp [List.map_map, Function.comp_def], ?_⟩
+    intro p
+    have hkeys : ∀ l : List (Pos × Int), keysOf (l.map (fun e => (e.1, (0 : Int)))) = keysOf l := by
+      intro l; simp [keysOf, List.map_map, Function.comp_def]
+    simp only [look, hasKey_foldl_set0, he.hasKey p, hkeys]
+  · -- dict
+    have he := leq_erase_effective .dict ops.rems v.items
+    simp only [applyCore]
+    have hrem : (ops.rems.filter (fun p => hasKey p v.items)).filter (fun p => hasKey p v.items) =
+        ops.rems.filter (fun p => hasKey p v.items) := by
+      rw [List.filter_filter]; exact List.filter_congr (fun p _ => by simp)
+    rw [hrem]
+    exact ⟨rfl, LEq.foldl_set (fun e => e.2) ops.mods he⟩
+
 end HgVerif.FeedbackRef
